@@ -240,8 +240,11 @@ def r83(ctx):
             ctx.bad(rid, d.stmt, "the just-replaced path is queued before the deletion block of the same iteration: it can be deleted in the step in which the on-disk restart file still names it")
         else:
             facts = cfg.guards(d.at)
+            renum = [cfg.node_of(st) for st in walk_local(f) if isinstance(st, ast.Assign) and any(isinstance(t_, ast.Attribute) and t_.attr == "path_number" for t_ in st.targets)]
             if not any(t and _is_initial_guard(e, fl, d.at) for e, t, _ in facts):
                 ctx.bad(rid, d.stmt, "queueing for deletion is not guarded by `pn_old > self.n - 2`: initial paths would be deleted later")
+            elif renum and not any(cfg.dominates(rn, d.at) for rn in renum):
+                ctx.bad(rid, d.stmt, "the old path is queued for deletion also when the move was rejected (the store is not dominated by the assignment of a new path number, i.e. not inside the branch that replaces the path): a rejected, still-live path enters the FIFO with its own files and loses them n - 1 entries later while restart.toml still lists it", construct="delete queue filled outside the replacement branch")
             else:
                 # what is queued must be the replaced path's own files
                 v = d.value
@@ -880,6 +883,11 @@ def run(ctx):
     ctx.attempt(r812, ctx)
     ctx.rule("R-8.13", "the in-flight record that restart.toml saves pairs ensembles and path numbers position by position (built from the sequence zipped with the ensembles when the job is assembled)", floor=2)
     ctx.attempt(r813, ctx)
+    ctx.rule("R-8.14", "a finished job leaves the in-flight record that restart.toml saves: one representation of path numbers at every filling site and at the membership test that removes the record (shared with C03 R-3.8)", floor=3)
+    from . import c03 as _c03b
+    from .shared import RuleProxy as _RP8
+    _cls8 = ctx.tree.cls(REPEX, "REPEX_state")
+    ctx.attempt(_c03b.r38, _RP8(ctx, "R-8.14", " (the record of a finished job is never removed: restart.toml keeps listing it and a later restart re-issues a completed job)"), {s_.name: s_ for s_ in _cls8.body if isinstance(s_, FUNC)})
     ctx.rule("R-8.11", "every completed step is committed: each normal path through treat_output writes restart.toml", floor=1)
     from .shared import commit_every_step
     ctx.attempt(commit_every_step, ctx, "R-8.11")
@@ -890,6 +898,8 @@ def run(ctx):
 
 
 VARIANTS = [
+    B("c08-delete-queue-filled-for-rejected-moves", REPEX, "                    # keep delete list:\n                    if len(self.pn_olds) <= self.n - 2:\n                        self.pn_olds[str(pn_old)] = {\n                            \"adress\": self.traj_data[pn_old][\"adress\"],\n                        }\n", "", "R-8.3", control=True, also=[(REPEX, "            pn_news.append(out_traj.path_number)\n", "            if self.config[\"output\"].get(\"delete_old\", False) and pn_old > self.n - 2:\n                if len(self.pn_olds) <= self.n - 2:\n                    self.pn_olds[str(pn_old)] = {\"adress\": self.traj_data[pn_old][\"adress\"]}\n            pn_news.append(out_traj.path_number)\n")], why="seeded C14_l"),
+    B("c08-reissue-recorded-as-int", REPEX, "        self.locked.append((enss, trajs0))\n", "        self.locked.append((enss, [i.path_number for i in trajs]))\n", "R-8.14", control=True, why="seeded C08_l (= C06_e)"),
     B("c08-record-in-pick-order", REPEX, "        pat_nums = [str(i.path_number) for i in inp_trajs]\n", "        pat_nums = [str(traj.path_number)]\n        if len(inp_trajs) > 1:\n            pat_nums.append(str(other_traj.path_number))\n", "R-8.13", why="seeded C08_j"),
     B("c08-record-paths-reversed-source", REPEX, "        pat_nums = [str(i.path_number) for i in inp_trajs]\n", "        pat_nums = [str(i.path_number) for i in reversed(inp_trajs)]\n", "R-8.13", control=True, why="seeded C08_j (same effect: record not in ensemble order)"),
     K("c08-keep-record-generator", REPEX, "        pat_nums = [str(i.path_number) for i in inp_trajs]\n", "        pat_nums = list(str(t.path_number) for t in inp_trajs)\n"),
